@@ -27,12 +27,12 @@ KNOWN_FILE = os.path.join(VERIF, "known_findings.json")
 # worlds per tier (a wall-clock budget is only a safety net)
 PLAN = {
     "quick": {
-        "C01": dict(worlds=360, wall=150),
-        "C13": dict(worlds=500, wall=150),
-        "C17": dict(worlds=360, wall=150),
+        "C01": dict(worlds=600, wall=150),
+        "C13": dict(worlds=800, wall=150),
+        "C17": dict(worlds=550, wall=150),
         "C02": dict(worlds=160, wall=150),
         "C03": dict(worlds=140, wall=150),
-        "C04": dict(worlds=200, wall=150),
+        "C04": dict(worlds=320, wall=150),
     },
     "thorough": {
         "C01": dict(worlds=9000, wall=1700),
